@@ -28,6 +28,28 @@ class Ctx:
         self.R = Roles(engine, self.H)
         self.memo = {}
 
+    def helpers_graph(self, F, stop=(), fault=None, extra_classes=()):
+        """Interprocedural graph of F with the private helpers of its own
+        class inlined, except the reuse deciders, the replay routine and
+        the functions named in ``stop`` (kept as opaque calls).  Rules use
+        it so that extracting or inlining a helper does not change what
+        they see."""
+        from .guards import guards
+        if isinstance(F, str):
+            F = self.E.func(F)
+        G = guards(self)
+        stopset = set(G.all) | {G.replay}
+        stopq = set(stop)
+        cls = F.cls
+
+        def inline(g):
+            if g in stopset or g.qualname in stopq or g.is_ctor_call:
+                return False
+            if g.cls == cls or g.cls in extra_classes:
+                return not g.is_public or g.cls != self.R.builder
+            return False
+        return self.E.super(F, inline, fault)
+
     def validate_anchors(self, pid):
         """Every function of the frozen anchor table that the rules refer to
         by name must exist (possibly recognised under a new name); a
@@ -79,3 +101,10 @@ def opt(name):
     """Marks a function name that a rule only mentions defensively (its
     absence is fine); see Ctx.validate_anchors."""
     return name
+
+
+def perform_names(ctx):
+    """Builder functions that perform a recorded operation (kept opaque when
+    the recording functions are analysed): the two private runners."""
+    R = ctx.R
+    return (R.builder + '._build_file', R.builder + '._subbuild')
